@@ -1,3 +1,309 @@
 import B6.Driver.Common
-/-! Driver for C25 — stub (the check for this property is not built yet). -/
-def main : IO Unit := B6.Driver.run { σ := Unit, init := (), step := fun s _ _ => (s, .bad) }
+import B6.Model.Proto.MapParallel
+/-!
+Driver for C25.  One op line = one evaluation of the real `map-parallel` (and of `map`) over the collection
+`0 … N-1` with a logging / failing function:
+
+  `run n=<cores> mp=<GOMAXPROCS> N=<items> fail=[k …] y=<seed>`
+  answer `<ok|hang|panic> [ev …] map=<count>:<nil|k|other>`
+     ev: `n` consumer calls Next() · `c<k>` f entered on item k · `t<k>` Next() returned item k (`t<k>!`: wrong key/value)
+         · `e:nil` | `e:<k>` | `e:other` Next() returned false with no error / item k's error / another error
+
+Property predicate on the implementation's answer alone (`propfail <clause>`):
+  `terminates`  the evaluation did not end (`hang`);  `panic`
+  `order`       the values handed to the consumer are not items 0, 1, 2, … in this order with their own keys
+  `complete`    nothing fails, yet not all N values were yielded or an error was reported
+  `error`       something fails, yet the evaluation ended without an error, with an error that is not the error of
+                a failing item, or yielded the value of an item at or after the first failing one
+Model conformance (`diff …`): the event log is REPLAYED through the protocol model (`MapParallel.step`; every
+transition taken is checked to be a member of `step s`).  Hidden steps (dispatcher sends, channel receives,
+result sends, the consumer's receive between its `n` and `t` events, errgroup returns, closes) are inserted on
+demand, as late as possible; after `e:` the model must run down to a terminal state with the same error.
+`map` itself must yield the values before the first failing item and then that item's error.
+For `n = 1` the real code falls back to `map`; its traces are checked against the model with one lane.
+-/
+open B6.Driver B6.Model.Proto B6.Model.Proto.MapParallel
+namespace B6.Driver.C25
+
+inductive Ev where
+  | next
+  | call (k : Nat)
+  | take (k : Nat) (good : Bool)
+  | fin (e : Option (Option Nat))      -- none = `other`
+deriving Repr
+
+structure Run where
+  n : Nat
+  N : Nat
+  fail : List Nat
+
+def field (op key : String) : Option String :=
+  match op.splitOn (" " ++ key ++ "=") with
+  | [_, rest] =>
+    if rest.startsWith "[" then
+      match rest.splitOn "]" with
+      | first :: _ :: _ => some (first ++ "]")
+      | _ => none
+    else (rest.splitOn " ").head?
+  | _ => none
+
+def parseRun (op : String) : Option Run := do
+  guard (op.startsWith "run ")
+  let n ← (← field op "n").toNat?
+  let N ← (← field op "N").toNat?
+  let fail ← (← parseBracket (← field op "fail")).mapM (·.toNat?)
+  some { n := n, N := N, fail := fail }
+
+def parseEnd (s : String) : Option (Option (Option Nat)) :=
+  if s == "nil" then some (some none)
+  else if s == "other" then some none
+  else (s.toNat?).map fun k => some (some k)
+
+def parseEv (s : String) : Option Ev :=
+  if s == "n" then some .next
+  else if s.startsWith "e:" then (parseEnd (sdrop s 2)).map .fin
+  else if s.startsWith "c" then (sdrop s 1).toNat?.map .call
+  else if s.startsWith "t" then
+    if s.endsWith "!" then (sdropEnd (sdrop s 1) 1).toNat?.map (.take · false)
+    else (sdrop s 1).toNat?.map (.take · true)
+  else none
+
+structure Answer where
+  outcome : String
+  evs : List Ev
+  mapCount : Nat
+  mapEnd : Option (Option Nat)
+
+def parseAnswer (a : String) : Option Answer :=
+  match words a with
+  | [o] => if o == "hang" || o == "panic" then some { outcome := o, evs := [], mapCount := 0, mapEnd := none } else none
+  | "ok" :: _ =>
+    match a.splitOn "] map=" with
+    | [left, right] => do
+      let evs ← (← parseBracket (sdrop left 3 ++ "]")).mapM parseEv
+      let (cnt, e) ← (match right.splitOn ":" with | [x, y] => some (x, y) | _ => none)
+      some { outcome := "ok", evs := evs, mapCount := (← cnt.toNat?), mapEnd := (← parseEnd e) }
+    | _ => none
+  | _ => none
+
+def minFail (r : Run) : Option Nat := (r.fail.filter (· < r.N)).foldl (fun m k => match m with | none => some k | some x => some (min x k)) none
+
+/-! ### the property predicate -/
+
+def takes : List Ev → List (Nat × Bool)
+  | [] => []
+  | .take k g :: es => (k, g) :: takes es
+  | _ :: es => takes es
+
+def finOf (evs : List Ev) : Option (Option (Option Nat)) :=
+  match evs.getLast? with
+  | some (.fin e) => some e
+  | _ => none
+
+def inOrder : List (Nat × Bool) → Nat → Bool
+  | [], _ => true
+  | (k, g) :: ts, i => k == i && g && inOrder ts (i + 1)
+
+def propertyClause (r : Run) (a : Answer) : Option String :=
+  if a.outcome == "hang" then some "terminates"
+  else if a.outcome == "panic" then some "panic"
+  else
+    let ts := takes a.evs
+    if !inOrder ts 0 then some "order"
+    else match finOf a.evs, minFail r with
+      | none, _ => some "terminates"
+      | some e, none => if e == some none && ts.length == r.N then none else some "complete"
+      | some e, some m =>
+        match e with
+        | some (some k) => if r.fail.contains k && k < r.N && ts.length ≤ m then none else some "error"
+        | _ => some "error"
+
+/-! ### replay through the model -/
+
+abbrev M := Except String
+
+structure RS where
+  s : St
+  nexts : Nat        -- Next() calls seen so far
+
+def follow (c : Cfg) (s t : St) : M St :=
+  if (step c s).any (· == t) then pure t else throw "not-a-step-of-the-model"
+
+def lane (s : St) (j : Nat) : M Lane :=
+  match s.lanes[j]? with
+  | some l => pure l
+  | none => throw s!"no-lane-{j}"
+
+inductive Goal where
+  | takeUpTo (x : Nat)   -- the consumer has taken item x
+  | push (j : Nat)       -- worker j has put its result into out[j]
+  | idle (j : Nat)       -- worker j is back in `range in[j]`
+  | recv (j : Nat)       -- worker j has taken the item in in[j]
+  | send                 -- the dispatcher has sent item `write`
+
+def demand (c : Cfg) : Nat → Goal → RS → M RS
+  | 0, _, _ => throw "out-of-fuel"
+  | f + 1, .takeUpTo x, rs =>
+    if rs.s.read > x then pure rs
+    else if !(rs.s.read < rs.nexts) then throw s!"item-{rs.s.read}-needed-before-the-consumer-asked-for-it"
+    else do
+      let r := rs.s.read % c.n
+      let l ← lane rs.s r
+      let rs ← (if l.outq.isNone then demand c f (.push r) rs else pure rs)
+      let l ← lane rs.s r
+      match l.outq with
+      | none => throw "nothing-to-take"
+      | some k =>
+        let t ← follow c rs.s { rs.s with lanes := rs.s.lanes.set r { l with outq := none }, out := rs.s.out ++ [k], read := rs.s.read + 1 }
+        demand c f (.takeUpTo x) { rs with s := t }
+  | f + 1, .push j, rs => do
+    let l ← lane rs.s j
+    match l.wk with
+    | .holding k =>
+      let rs ← (match l.outq with
+        | some x => demand c f (.takeUpTo x) rs
+        | none => pure rs)
+      let l ← lane rs.s j
+      let t ← follow c rs.s (setLane rs.s j { l with wk := Wk.idle, outq := some k })
+      pure { rs with s := t }
+    | _ => throw s!"worker-{j}-has-no-result-to-send"
+  | f + 1, .idle j, rs => do
+    let l ← lane rs.s j
+    match l.wk with
+    | .idle => pure rs
+    | .holding _ => demand c f (.push j) rs
+    | .busy k => throw s!"worker-{j}-has-not-called-f-on-item-{k}-yet"
+    | _ => throw s!"worker-{j}-has-returned"
+  | f + 1, .recv j, rs => do
+    let rs ← demand c f (.idle j) rs
+    let l ← lane rs.s j
+    match l.inq with
+    | some k =>
+      let t ← follow c rs.s (setLane rs.s j { l with inq := none, wk := Wk.busy k })
+      pure { rs with s := t }
+    | none => throw s!"in[{j}]-is-empty"
+  | f + 1, .send, rs => do
+    let j := rs.s.write % c.n
+    let l ← lane rs.s j
+    let rs ← (if l.inq.isSome then demand c f (.recv j) rs else pure rs)
+    let l ← lane rs.s j
+    let t ← follow c rs.s { rs.s with lanes := rs.s.lanes.set j { l with inq := some rs.s.write }, write := rs.s.write + 1 }
+    pure { rs with s := t }
+
+def sendUpTo (c : Cfg) (k : Nat) : Nat → RS → M RS
+  | 0, _ => throw "out-of-fuel"
+  | f + 1, rs =>
+    if rs.s.write > k then pure rs
+    else do
+      let rs ← demand c (4 * (c.n + c.N) + 8) .send rs
+      sendUpTo c k f rs
+
+def findLane (p : Lane → Bool) (s : St) : Option (Nat × Lane) :=
+  let rec go : List Lane → Nat → Option (Nat × Lane)
+    | [], _ => none
+    | l :: ls, i => if p l then some (i, l) else go ls (i + 1)
+  go s.lanes 0
+
+/-- one step of the run-down after the consumer's last Next(); `none` = the model is terminal -/
+def silent (c : Cfg) (want : Option Nat) (s : St) : M (Option St) :=
+  if s.fin.isSome then pure none else
+  -- errgroup returns: the error the implementation reported goes first
+  let failing := match want with
+    | some e => (findLane (fun l => l.wk == Wk.failing e) s).orElse fun _ => findLane (fun l => match l.wk with | .failing _ => true | _ => false) s
+    | none => findLane (fun l => match l.wk with | .failing _ => true | _ => false) s
+  match failing with
+  | some (j, l) =>
+    (match l.wk with
+      | .failing k => pure (some { s with lanes := s.lanes.set j { l with wk := Wk.exited }, gerr := if s.gerr.isSome then s.gerr else some k })
+      | _ => throw "unreachable")
+  | none =>
+  match findLane (fun l => match l.wk with | .busy _ => true | _ => false) s with
+  | some (j, _) => throw s!"worker-{j}-holds-an-item-f-was-never-called-on"
+  | none =>
+  match s.disp with
+  | .running =>
+    if s.write < c.N then
+      if s.gerr.isSome then pure (some { s with disp := D.closing })
+      else throw s!"item-{s.write}-never-passed-to-f-though-nothing-failed"
+    else pure (some { s with disp := D.closing })
+  | .closing => pure (some { s with disp := D.exited, inClosed := true })
+  | .exited =>
+    match findLane (fun l => l.wk != Wk.exited) s with
+    | some (j, l) =>
+      (match l.wk with
+        | .holding k =>
+          if s.gerr.isSome then pure (some (setLane s j { l with wk := Wk.exited }))
+          else throw s!"item-{k}-computed-but-never-handed-to-the-consumer"
+        | .idle =>
+          if l.inq.isSome then throw s!"worker-{j}-never-called-f-on-the-item-in-in[{j}]"
+          else pure (some (setLane s j { l with wk := Wk.exited }))
+        | _ => throw "unreachable")
+    | none =>
+      if !s.outClosed then pure (some { s with outClosed := true })
+      else pure (some { s with fin := some s.gerr })
+
+def runDown (c : Cfg) (want : Option Nat) : Nat → St → M St
+  | 0, _ => throw "run-down-out-of-fuel"
+  | f + 1, s => do
+    match ← silent c want s with
+    | none => pure s
+    | some t =>
+      let t ← follow c s t
+      runDown c want f t
+
+def replay (c : Cfg) : List Ev → Nat → RS → M Unit
+  | [], _, _ => throw "no-final-event"
+  | .next :: es, ti, rs => replay c es ti { rs with nexts := rs.nexts + 1 }
+  | .call k :: es, ti, rs => do
+    if k ≥ c.N then throw s!"no-item-{k}"
+    let rs ← sendUpTo c k (c.N + 2) rs
+    let j := k % c.n
+    let l ← lane rs.s j
+    let rs ← (if l.wk == Wk.busy k then pure rs else
+      if l.inq == some k then demand c (4 * (c.n + c.N) + 8) (.recv j) rs else throw s!"item-{k}-cannot-reach-worker-{j}-here")
+    let l ← lane rs.s j
+    if l.wk != Wk.busy k then throw s!"worker-{j}-is-not-about-to-call-f-on-item-{k}"
+    let t ← follow c rs.s (setLane rs.s j { l with wk := if c.fails k then Wk.failing k else Wk.holding k })
+    replay c es ti { rs with s := t }
+  | .take k _ :: es, ti, rs => do
+    if k != ti then throw "takes-out-of-order"
+    let rs ← demand c (4 * (c.n + c.N) + 8) (.takeUpTo ti) rs
+    replay c es (ti + 1) rs
+  | .fin e :: es, _, rs => do
+    if !es.isEmpty then throw "events-after-the-end"
+    match e with
+    | none => throw "an-error-that-is-not-an-item's"
+    | some want =>
+      let s ← runDown c want (6 * (c.n + c.N) + 16) rs.s
+      if s.fin != some want then
+        throw (match s.fin with
+          | some (some k) => s!"model-ends-with-the-error-of-item-{k}"
+          | some none => "model-ends-without-an-error"
+          | none => "model-not-terminal")
+
+def conform (r : Run) (a : Answer) : M Unit := do
+  let c : Cfg := { n := r.n, N := r.N, fails := fun k => r.fail.contains k }
+  -- `map`: the values before the first failing item, then its error
+  let (wantCount, wantEnd) : Nat × Option (Option Nat) := match minFail r with
+    | some m => (m, some (some m))
+    | none => (r.N, some none)
+  if a.mapCount != wantCount || a.mapEnd != wantEnd then throw "map-itself-differs-from-its-spec"
+  replay c a.evs 0 { s := init c, nexts := 0 }
+
+def step (_ : Unit) (op impl : String) : Unit × Verdict :=
+  match parseRun op, parseAnswer impl with
+  | some r, some a =>
+    if r.n == 0 then ((), .bad) else
+    match propertyClause r a with
+    | some clause => ((), .propfail clause)
+    | none =>
+      match conform r a with
+      | .ok () => ((), .ok)
+      | .error e => ((), .diff ("model-rejects:" ++ e))
+  | _, _ => ((), .bad)
+
+def family : Family := { σ := Unit, init := (), step := step }
+
+end B6.Driver.C25
+
+def main : IO Unit := B6.Driver.run B6.Driver.C25.family
